@@ -99,6 +99,16 @@ CHECKS = {
    "Every 8 executor steps the guarded statistics probe is sampled: connection-level `available + in flight` must equal the configured target (a leak or a double credit breaks the sum), and bytes counted in flight must be held by an application receive handle that is still alive (data discarded for reset, dropped, finished, refused streams or as padding must have been credited back). From the wire: no WINDOW_UPDATE may raise an advertised stream window above the initial window in force or the connection window above the target in force, nor above 2^31-1, and the window computable from the wire must equal the endpoint's own belief at the end.",
    "Stream-level conservation is decided from the wire (over-credit) and behaviourally (cooperative transfers complete under C06 with windows down to 1 byte); the probe exposes connection-level counters only.",
    "DESIGN.md §3 C03"),
+ "C16": ("sim-raw", "exploration",
+   "property-based testing (stateful): generated capacity programs (reserve / wait-for-capacity / send / release / abandon, several streams, windows from 1 byte, max_send_buffer_size, mid-flight SETTINGS_INITIAL_WINDOW_SIZE changes) on an h2 server against the reference peer with generated window grants; oracle over API log + tap",
+   "Whatever capacity() reports is spendable at once (send_data of that many bytes is accepted and the bytes reach the wire within the peer's windows); reported capacity never exceeds the request, the send-buffer bound or the windows computed independently from the tap; poll_capacity never yields a zero-sized grant while the stream can still send; capacity taken from a stream (lowered reservation, finished, reset or dropped stream, lowered initial window) becomes available to the other waiting streams: every program whose total demand fits the windows the peer granted completes.",
+   "Server role only (the send path is shared code); fairness between streams is judged only as 'nobody starves', not by proportion.",
+   "DESIGN.md §3 C16"),
+ "C18": ("sim-raw", "exploration",
+   "property-based testing with a metamorphic (scaling) oracle: generated hostile traffic patterns, limits, accept behaviour and chunkings against an h2 server or client, each run with n, 2n and 4n repetitions; oracle = plateau of sampled state counters and of the connection's live heap bytes (counting allocator) under doubling",
+   "Patterns: open-and-reset (before / after accept), streams over the advertised limit, CONTINUATION flood, empty / tiny / padded DATA floods on an unread stream, PING and SETTINGS floods while the endpoint's writes are blocked, header lists beyond the advertised size, DATA on closed streams, malformed requests the library resets, WINDOW_UPDATE / PRIORITY / unknown-frame floods, abandoned accepted streams, generated frame-unit floods; against a client: PUSH_PROMISE, 1xx and stray RST_STREAM floods. Unless the endpoint terminated the connection with an error, stream records, buffered receive events, queued send frames, bytes consumed while its own writes are blocked and live heap bytes allocated inside Connection::poll must not grow over both doublings.",
+   "Bounds are judged by scaling (a quota that is merely huge would pass); memory of the application-facing handles is not attributed to the connection.",
+   "DESIGN.md §3 C18"),
 }
 
 NOT_YET = "check not built yet in this round (machinery in progress; see DESIGN.md §5 build order)"
@@ -137,7 +147,7 @@ def main():
             {"name": "hpack-enc", "path": "harness/src/eng_hpack.rs", "serves_properties": ["C10"], "kind_free_text": "proptest-driven generated histories through h2's Codec write side; strict reference HPACK decoder as oracle"},
             {"name": "codec", "path": "harness/src/eng_codec.rs", "serves_properties": ["C12"], "kind_free_text": "h2 Codec as Sink/Stream over a scripted transport vs refmodel::wire"},
             {"name": "sim-pair", "path": "harness/src/{sim,sim_pair,eng_pair,oracles,tapx}.rs", "serves_properties": ["C01", "C02", "C04", "C05", "C06", "C07", "C17", "C19"], "kind_free_text": "deterministic simulator: h2 client and server on a waker-faithful single-thread executor over a scripted transport with an independent tap; proptest-generated programs/schedules/chunkings"},
-            {"name": "sim-raw", "path": "harness/src/{sim_raw,eng_raw}.rs", "serves_properties": ["C03", "C08", "C09", "C13", "C14", "C15"], "kind_free_text": "h2 endpoint against a scripted frame-level reference peer (cooperative core + generated deviation script) on the deterministic simulator"},
+            {"name": "sim-raw", "path": "harness/src/{sim_raw,eng_raw}.rs", "serves_properties": ["C03", "C08", "C09", "C13", "C14", "C15", "C16", "C18"], "kind_free_text": "h2 endpoint against a scripted frame-level reference peer (cooperative core + generated deviation script) on the deterministic simulator"},
             {"name": "hpack-dec", "path": "harness/src/eng_hpack.rs", "serves_properties": ["C11"], "kind_free_text": "differential h2 decoder vs RFC 7541 reference on generated/mutated/hostile blocks; whole-vs-split through Codec; exhaustive Huffman/integer sub-spaces"},
         ],
         "checks": checks,
